@@ -82,6 +82,48 @@ impl<'s> Ck<'s> {
       }
     }
   }
+  fn occ(&mut self, o: &Occur, parent: Span) -> Option<Span> {
+    let sp = match o {
+      Occur::Exact { span, .. } | Occur::ZeroOrMore { span } | Occur::OneOrMore { span } | Occur::Optional { span } => *span,
+    };
+    if self.basic("occurrence", sp) {
+      self.inside("occurrence", sp, parent);
+      Some(sp)
+    } else {
+      None
+    }
+  }
+  fn gargs(&mut self, ga: &GenericArgs, parent: Span) -> Option<Span> {
+    if !self.basic("generic arguments", ga.span) {
+      return None;
+    }
+    self.inside("generic arguments", ga.span, parent);
+    let mut sib = vec![];
+    for a in &ga.args {
+      if self.basic("generic argument", a.arg.span) {
+        self.inside("generic argument", a.arg.span, ga.span);
+        sib.push(a.arg.span);
+        self.t2(&a.arg.type2, a.arg.span);
+        if let Some(op) = &a.arg.operator {
+          self.t2(&op.type2, a.arg.span);
+        }
+      }
+    }
+    self.ordered("generic arguments", &sib);
+    Some(ga.span)
+  }
+  fn gparams(&mut self, gp: &GenericParams, parent: Span) {
+    if !self.basic("generic parameters", gp.span) {
+      return;
+    }
+    self.inside("generic parameters", gp.span, parent);
+    let mut sib = vec![];
+    for p in &gp.params {
+      self.ident(&p.param, gp.span);
+      sib.push(p.param.span);
+    }
+    self.ordered("generic parameters", &sib);
+  }
   fn ty(&mut self, t: &Type, parent: Span) {
     if t.type_choices.is_empty() {
       return; // synthesized node (e.g. `#6.1` without a parenthesized type): no source text
@@ -99,7 +141,15 @@ impl<'s> Ck<'s> {
         self.t2(&t1.type2, t1.span);
         if let Some(op) = &t1.operator {
           self.t2(&op.type2, t1.span);
-          self.ordered("target / controller", &[t2_span(&t1.type2), t2_span(&op.type2)]);
+          let osp = match &op.operator {
+            RangeCtlOp::RangeOp { span, .. } | RangeCtlOp::CtlOp { span, .. } => *span,
+          };
+          if self.basic("operator", osp) {
+            self.inside("operator", osp, t1.span);
+            self.ordered("target / operator / controller", &[t2_span(&t1.type2), osp, t2_span(&op.type2)]);
+          } else {
+            self.ordered("target / controller", &[t2_span(&t1.type2), t2_span(&op.type2)]);
+          }
         }
       }
     }
@@ -112,12 +162,90 @@ impl<'s> Ck<'s> {
     }
     self.inside("type2", sp, parent);
     match t {
-      Type2::Typename { ident, .. } | Type2::Unwrap { ident, .. } | Type2::ChoiceFromGroup { ident, .. } => self.ident(ident, sp),
+      Type2::Typename { ident, generic_args, .. } | Type2::Unwrap { ident, generic_args, .. } | Type2::ChoiceFromGroup { ident, generic_args, .. } => {
+        self.ident(ident, sp);
+        if let Some(ga) = generic_args {
+          if let Some(g) = self.gargs(ga, sp) {
+            self.ordered("name / generic arguments", &[ident.span, g]);
+          }
+        }
+      }
       Type2::ParenthesizedType { pt, .. } => self.ty(pt, sp),
       Type2::TaggedData { t, .. } => self.ty(t, sp),
       Type2::Map { group, .. } | Type2::Array { group, .. } | Type2::ChoiceFromInlineGroup { group, .. } => self.group(group, sp),
       _ => {}
     }
+  }
+  fn entry(&mut self, ge: &GroupEntry, parent: Span) -> Option<Span> {
+    let sp = ge_span(ge);
+    if !self.basic("group entry", sp) {
+      return None;
+    }
+    self.inside("group entry", sp, parent);
+      match ge {
+        GroupEntry::ValueMemberKey { ge, .. } => {
+          let mut parts = vec![];
+          if let Some(o) = &ge.occur {
+            parts.push(self.occ(&o.occur, sp));
+          }
+          match &ge.member_key {
+            Some(MemberKey::Bareword { ident, span, .. }) => {
+              if self.basic("member key", *span) {
+                self.inside("member key", *span, sp);
+                self.ident(ident, *span);
+                parts.push(Some(*span));
+              }
+            }
+            Some(MemberKey::Type1 { t1, span, .. }) => {
+              if self.basic("member key", *span) {
+                self.inside("member key", *span, sp);
+                if self.basic("type1", t1.span) {
+                  self.inside("type1 of a member key", t1.span, *span);
+                  self.t2(&t1.type2, t1.span);
+                  if let Some(op) = &t1.operator {
+                    self.t2(&op.type2, t1.span);
+                  }
+                }
+                parts.push(Some(*span));
+              }
+            }
+            Some(MemberKey::Value { span, .. }) => {
+              if self.basic("member key", *span) {
+                self.inside("member key", *span, sp);
+                parts.push(Some(*span));
+              }
+            }
+            _ => {}
+          }
+          self.ty(&ge.entry_type, sp);
+          if !ge.entry_type.type_choices.is_empty() {
+            parts.push(Some(ge.entry_type.span));
+          }
+          let parts: Vec<Span> = parts.into_iter().flatten().collect();
+          self.ordered("occurrence / member key / type of an entry", &parts);
+        }
+        GroupEntry::TypeGroupname { ge, .. } => {
+          let mut parts = vec![];
+          if let Some(o) = &ge.occur {
+            parts.push(self.occ(&o.occur, sp));
+          }
+          self.ident(&ge.name, sp);
+          parts.push(Some(ge.name.span));
+          if let Some(ga) = &ge.generic_args {
+            parts.push(self.gargs(ga, sp));
+          }
+          let parts: Vec<Span> = parts.into_iter().flatten().collect();
+          self.ordered("occurrence / name / generic arguments of an entry", &parts);
+        }
+        GroupEntry::InlineGroup { group, occur, .. } => {
+          let o = occur.as_ref().and_then(|o| self.occ(&o.occur, sp));
+          self.group(group, sp);
+          if let Some(o) = o {
+            self.ordered("occurrence / inline group", &[o, group.span]);
+          }
+        }
+      }
+    Some(sp)
   }
   fn group(&mut self, g: &Group, parent: Span) {
     if !self.basic("group", g.span) {
@@ -131,15 +259,8 @@ impl<'s> Ck<'s> {
         gcs.push(gc.span);
         let mut es = vec![];
         for (ge, _) in &gc.group_entries {
-          let sp = ge_span(ge);
-          if self.basic("group entry", sp) {
-            self.inside("group entry", sp, gc.span);
+          if let Some(sp) = self.entry(ge, gc.span) {
             es.push(sp);
-            match ge {
-              GroupEntry::ValueMemberKey { ge, .. } => self.ty(&ge.entry_type, sp),
-              GroupEntry::TypeGroupname { ge, .. } => self.ident(&ge.name, sp),
-              GroupEntry::InlineGroup { group, .. } => self.group(group, sp),
-            }
           }
         }
         self.ordered("group entries", &es);
@@ -170,6 +291,9 @@ fn check_doc(doc: &str) -> Result<Option<String>, String> {
             ck.bad.push(format!("rule `{}`: its span {:?} does not start at its name {:?}", rule.name, sp, rule.name.span));
           }
           ck.ident(&rule.name, sp);
+          if let Some(gp) = &rule.generic_params {
+            ck.gparams(gp, sp);
+          }
           ck.ty(&rule.value, sp);
         }
         Rule::Group { rule, .. } => {
@@ -177,6 +301,10 @@ fn check_doc(doc: &str) -> Result<Option<String>, String> {
             ck.bad.push(format!("rule `{}`: its span {:?} does not start at its name {:?}", rule.name, sp, rule.name.span));
           }
           ck.ident(&rule.name, sp);
+          if let Some(gp) = &rule.generic_params {
+            ck.gparams(gp, sp);
+          }
+          ck.entry(&rule.entry, sp);
         }
       }
     }
@@ -217,6 +345,42 @@ pub fn find(args: &[String]) -> i32 {
     loop {
       if k == 0 {
         if idx.len() == n {
+          // second family: structurally rich ACCEPTED documents from the generator of replay u10b, as written and
+          // with token separators replaced by CRLF, by a comment with multi-byte characters, or widened
+          let nseeds: u64 = if n >= 4 { 6000 } else { 1500 };
+          for seed in 0..nseeds {
+            let base = crate::u10b::gen_text(seed);
+            let mut variants = vec![base.clone()];
+            for (every, rep) in [(3usize, "\r\n"), (4, " ; c\u{20ac}\u{e9}\n\t"), (5, "   "), (2, "\n\n")] {
+              let mut out = String::new();
+              let mut k2 = seed as usize;
+              for ch in base.chars() {
+                if ch == ' ' {
+                  k2 += 1;
+                  if k2 % every == 0 {
+                    out.push_str(rep);
+                    continue;
+                  }
+                }
+                out.push(ch);
+              }
+              variants.push(out);
+            }
+            for doc in variants {
+              tried += 1;
+              match check_doc(&doc) {
+                Err(p) => {
+                  println!("{{\"found\":true,\"tried\":{},\"witness\":{{\"doc\":{}}},\"real\":{}}}", tried, jstr(&doc), jstr(&format!("panic: {}", p)));
+                  return 1;
+                }
+                Ok(Some(why)) => {
+                  println!("{{\"found\":true,\"tried\":{},\"witness\":{{\"doc\":{}}},\"real\":{}}}", tried, jstr(&doc), jstr(&why));
+                  return 1;
+                }
+                Ok(None) => accepted += 1,
+              }
+            }
+          }
           println!("{{\"found\":false,\"tried\":{},\"parsed_or_rejected\":{}}}", tried, accepted);
           return 0;
         }
